@@ -37,6 +37,7 @@ from .sem import Sem, unfn  # noqa: F401  (unfn re-exported for the rule modules
 
 NONE = F.sym("None")
 ALL = F.sym("<all rows>")
+OTHERS = "<holds for the generic mode; depends on the other modes>"     # np.all(x) for one mode of many: open unless the rule fixes it through `truth`
 
 
 # ---------------------------------------------------------------------------------------------------------------- small value helpers
@@ -101,6 +102,20 @@ def lit(v):
     return n
 
 
+def _dotted_node(name, at=None):
+    """the expression node of a dotted name `a.b.c` (identifiers only), else None"""
+    parts = name.split(".")
+    if not parts or not all(p.isidentifier() for p in parts):
+        return None
+    n = ast.Name(id=parts[0], ctx=ast.Load())
+    for p in parts[1:]:
+        n = ast.Attribute(value=n, attr=p, ctx=ast.Load())
+    if at is not None:
+        for x in ast.walk(n):
+            ast.copy_location(x, at)
+    return n
+
+
 class DictV:
     """a dict with constant keys: key (str / Fraction) -> value (possibly a reference)"""
 
@@ -121,6 +136,7 @@ class Hist:
         self.blocks = {}       # rowkey -> {col: value}
         self.stores = []       # (rowkey, col, value, stmt)
         self.bad = []          # accesses that could not be modelled
+        self.poisoned = None   # why the content is not known any more (a store in a region the evaluator could not execute)
 
     def initial(self, rowkey, rowval, col):
         if self.fill is not None:
@@ -144,6 +160,8 @@ class Block:
         self.hist, self.rowkey, self.rowval, self.cols = hist, rowkey, rowval, cols
 
     def get(self, col):
+        if self.hist.poisoned is not None:
+            return Unknown(self.hist.poisoned)
         tab = self.cols if self.cols is not None else self.hist.blocks.get(self.rowkey, {})
         if col in tab:
             return tab[col]
@@ -173,7 +191,29 @@ class Box:
         return f"Box({self.v!r})"
 
 
-REFS = (Hist, Block, Box, DictV)
+class FuncV:
+    """a callable value.  kind: 'closure' (a nested def / lambda together with the scope it was created in), 'partial' (functools.partial: callee +
+    bound positional / keyword values), 'attrgetter' / 'itemgetter' (operator module), 'op' (operator.add ...: an ast operator)"""
+
+    def __init__(self, kind, **kw):
+        self.kind = kind
+        self.__dict__.update(kw)
+
+    def __repr__(self):
+        return f"FuncV({self.kind})"
+
+
+REFS = (Hist, Block, Box, DictV, FuncV)
+
+OPERATOR_FUNCS = {"add": ast.Add, "sub": ast.Sub, "mul": ast.Mult, "truediv": ast.Div, "matmul": ast.MatMult, "pow": ast.Pow, "and_": ast.BitAnd,
+                  "or_": ast.BitOr, "xor": ast.BitXor}
+PURE_BUILTINS = {"len", "abs", "min", "max", "sum", "any", "all", "range", "zip", "enumerate", "reversed", "tuple", "list", "dict", "set", "sorted", "map",
+                 "filter", "isinstance", "issubclass", "type", "int", "float", "complex", "bool", "str", "repr", "print", "getattr", "hasattr", "id", "iter",
+                 "next", "slice", "round", "divmod", "pow", "ValueError", "TypeError", "RuntimeError", "NotImplementedError", "SimpleNamespace", "reduce",
+                 "partial", "attrgetter", "itemgetter", "format", "vars"}
+UFUNC2 = {"np.add": ast.Add, "np.subtract": ast.Sub, "np.multiply": ast.Mult, "np.divide": ast.Div, "np.true_divide": ast.Div, "np.power": ast.Pow,
+          "np.matmul": ast.MatMult, "np.dot": ast.MatMult, "numpy.matmul": ast.MatMult, "numpy.dot": ast.MatMult}
+IDENT_FUNCS = {"np.copy", "np.ascontiguousarray", "np.asfortranarray", "np.asanyarray", "np.asarray", "np.array", "np.atleast_1d", "np.atleast_2d"}
 
 
 def has_ref(v):
@@ -198,6 +238,8 @@ class Ev01(AutoEvaluator):
         self._recorded = None
         self.raised = None       # the `raise` statement that ended the evaluated path, if any
         self.hists = []          # history arrays created by the evaluated code itself (np.zeros / np.empty with nt columns), shared with helpers
+        self.fn = fn
+        self.skipped = []        # (statement, reason): regions with stores that were not executed (undecided test, loop that could not be enumerated)
 
     # ---- configuration inherited by the evaluator of an inlined helper
     def spawn(self, fn, env):
@@ -209,6 +251,7 @@ class Ev01(AutoEvaluator):
         sub.depth = self.depth + 1
         sub.seq = self.seq
         sub.hists = self.hists
+        sub.skipped = self.skipped
         return sub
 
     # ------------------------------------------------------------------------------------------------ tests
@@ -247,6 +290,7 @@ class Ev01(AutoEvaluator):
         if isinstance(test, ast.Compare) and len(test.ops) == 1:
             op = test.ops[0]
             a, b = self.evr(test.left), self.evr(test.comparators[0])
+            a, b = (a.v if isinstance(a, Box) else a), (b.v if isinstance(b, Box) else b)      # a boxed value is compared by its content
             if isinstance(op, (ast.Eq, ast.NotEq, ast.Is, ast.IsNot)):
                 pos = isinstance(op, (ast.Eq, ast.Is))
                 if is_unknown(a) or is_unknown(b):
@@ -295,6 +339,8 @@ class Ev01(AutoEvaluator):
             return len(v) > 0
         if isinstance(v, DictV):
             return len(v.d) > 0
+        if isinstance(v, FuncV):
+            return True
         if isinstance(v, REFS):
             v = self.plain(v)
             if isinstance(v, tuple) or is_unknown(v):
@@ -334,6 +380,11 @@ class Ev01(AutoEvaluator):
         except Unsupported as e:
             return Unknown(str(e))
 
+    def ref_of(self, node):
+        """value of an expression in a position that keeps a reference to an array (element of a display, argument of a helper, value of a dict /
+        namespace entry): the same as evr here; ModeEv gives a bare array name an identity at this point"""
+        return self.evr(node)
+
     def _evr(self, node):
         if isinstance(node, _Lit):
             return node.v
@@ -341,7 +392,17 @@ class Ev01(AutoEvaluator):
             v = self.env.get(node.id)
             if has_ref(v):
                 return v
+            if v is None and node.id not in self.buffers:
+                mv = self.module_callable(node.id)
+                if mv is not None:
+                    return mv
             return super()._ev(node)
+        if isinstance(node, ast.Lambda):
+            f = ast.FunctionDef(name="<lambda>", args=node.args, body=[ast.copy_location(ast.Return(value=node.body), node)], decorator_list=[], returns=None,
+                                type_comment=None, type_params=[])
+            ast.copy_location(f, node)
+            ast.fix_missing_locations(f)
+            return FuncV("closure", fn=f, scope=self.env, owner=self)
         if isinstance(node, ast.Attribute):
             d = dotted(node)
             if d is not None:
@@ -349,7 +410,10 @@ class Ev01(AutoEvaluator):
                 if has_ref(v):
                     return v
                 rootv = self.env.get(d.split(".")[0])
-                if not has_ref(rootv) and not isinstance(rootv, tuple) and not (node.attr == "T" and not self.erase_T):
+                # `self.pc.Ae` read directly and `pc = self.pc; pc.Ae` are the same value attr:Ae(self.pc): a chain below `self.x` that is not itself
+                # bound is the attribute of the value of its prefix, not a symbol of its own spelling
+                deep = d.count(".") >= 2 and d.startswith("self.") and d not in self.env and "self" not in self.env
+                if not deep and not has_ref(rootv) and not isinstance(rootv, tuple) and not (node.attr == "T" and not self.erase_T):
                     return super()._ev(node)             # a plain dotted chain: the shared evaluator's reading
             b = self._evr(node.value)                      # evaluated once (calls inside are recorded once)
             if is_unknown(b):
@@ -365,6 +429,10 @@ class Ev01(AutoEvaluator):
                     return (F.sym("<rows>"), F.const(len(b)))
                 if node.attr == "ndim":
                     return F.const(2)
+            if isinstance(b, DictV):
+                if node.attr in b.d:
+                    return b.d[node.attr]          # a namespace object (SimpleNamespace(**fields)) with identity
+                return Unknown(f"attribute {node.attr} not set on the namespace")
             if isinstance(b, Box):
                 b = b.v
             if not isinstance(b, F.Rat):
@@ -399,7 +467,7 @@ class Ev01(AutoEvaluator):
                 kk = self.key_of(self.evr(k))
                 if kk is None:
                     return Unknown("dict key that is not a constant")
-                d[kk] = self.evr(v)
+                d[kk] = self.ref_of(v)
             return DictV(d)
         if isinstance(node, ast.IfExp):
             c = self.decide(node.test)
@@ -408,7 +476,7 @@ class Ev01(AutoEvaluator):
             if c is False:
                 return self._evr(node.orelse)
             return Unknown(f"undecided conditional {ast.unparse(node.test)}")
-        if isinstance(node, (ast.GeneratorExp, ast.ListComp)):
+        if isinstance(node, (ast.GeneratorExp, ast.ListComp, ast.SetComp, ast.DictComp)):
             return self.comprehension(node)
         if isinstance(node, ast.Subscript):
             return self.subscript_value(node)
@@ -437,7 +505,129 @@ class Ev01(AutoEvaluator):
         return super()._ev(node)
 
     REFNODES = (_Lit, ast.Name, ast.Attribute, ast.NamedExpr, ast.Tuple, ast.List, ast.Dict, ast.IfExp, ast.GeneratorExp, ast.ListComp, ast.Subscript, ast.Call,
-                ast.JoinedStr)
+                ast.JoinedStr, ast.Lambda, ast.SetComp, ast.DictComp)
+
+    # ---- callables
+    def module_callable(self, name):
+        """the callable a free name is bound to at the top level of the module that defines the evaluated function: `NAME = partial(f, ...)`,
+        `NAME = lambda ...`, `NAME = attrgetter(...)` (a constant-like binding a clean-up may have moved out of a function), else None"""
+        mod = getattr(self.fn, "_vmod", None)
+        if mod is None:
+            return None
+        cache = mod.__dict__.setdefault("_c01_callables", {})
+        if name in cache:
+            node = cache[name]
+        else:
+            node, n = None, 0
+            for st in mod.tree.body:
+                tg = st.targets if isinstance(st, ast.Assign) else ([st.target] if isinstance(st, (ast.AnnAssign, ast.AugAssign)) else [])
+                for t in tg:
+                    for x in ast.walk(t):
+                        if isinstance(x, ast.Name) and x.id == name:
+                            n += 1
+                            node = st.value if isinstance(st, (ast.Assign, ast.AnnAssign)) and isinstance(t, ast.Name) else None
+                if isinstance(st, (ast.FunctionDef, ast.ClassDef)) and st.name == name:
+                    n += 2
+            if n != 1 or not isinstance(node, (ast.Call, ast.Lambda)):
+                node = None
+            cache[name] = node
+        if node is None or name in self._folding:
+            return None
+        sub = type(self)(None, env={}, cond=self.cond, src=self.src)      # module scope: none of the function's locals is visible
+        sub.fn = self.fn
+        sub.inl, sub.module_consts = self.inl, self.module_consts
+        sub._folding = set(self._folding) | {name}
+        sub.depth = self.depth + 1
+        v = sub.evr(node)
+        return v if isinstance(v, FuncV) else None
+
+    def callee_value(self, f):
+        """the FuncV a callee expression denotes, else None"""
+        if isinstance(f, _Lit):
+            return f.v if isinstance(f.v, FuncV) else None
+        if isinstance(f, ast.Name):
+            v = self.env.get(f.id)
+            if isinstance(v, FuncV):
+                return v
+            if v is None and f.id not in self.buffers:
+                if f.id in OPERATOR_FUNCS and f.id not in self.inl:
+                    return None
+                return self.module_callable(f.id)
+            return None
+        if isinstance(f, ast.Attribute):
+            d = dotted(f)
+            if d is not None and d.startswith("operator.") and d.split(".", 1)[1] in OPERATOR_FUNCS:
+                return FuncV("op", op=OPERATOR_FUNCS[d.split(".", 1)[1]])
+            if d is not None:
+                v = self.env.get(d)
+                return v if isinstance(v, FuncV) else None
+            return None
+        if isinstance(f, (ast.Call, ast.Lambda, ast.IfExp, ast.Subscript, _Lit)):
+            v = self.evr(f)
+            return v if isinstance(v, FuncV) else None
+        return None
+
+    def apply(self, fv, node):
+        """call of a callable value with the arguments of `node`"""
+        args, kws = list(node.args), list(node.keywords)
+        if fv.kind == "partial":
+            new = ast.Call(func=fv.func, args=[lit(x) for x in fv.args] + args, keywords=[ast.keyword(arg=k, value=lit(v)) for k, v in fv.kw.items()
+                                                                                         if k not in {q.arg for q in kws}] + kws)
+            ast.copy_location(new, node)
+            ast.fix_missing_locations(new)
+            if isinstance(fv.func, _Lit):
+                return self.apply(fv.func.v, new)
+            return self._call(new)
+        if fv.kind in ("attrgetter", "itemgetter") and len(args) == 1 and not kws:
+            out = []
+            for it in fv.items:
+                if fv.kind == "attrgetter":
+                    x = args[0]
+                    for part in it.split("."):
+                        x = ast.copy_location(ast.Attribute(value=x, attr=part, ctx=ast.Load()), node)
+                else:
+                    x = ast.copy_location(ast.Subscript(value=args[0], slice=lit(it), ctx=ast.Load()), node)
+                ast.fix_missing_locations(x)
+                out.append(self.evr(x))
+            return out[0] if len(out) == 1 else tuple(out)
+        if fv.kind == "op" and len(args) == 2 and not kws:
+            x = ast.copy_location(ast.BinOp(left=args[0], op=fv.op(), right=args[1]), node)
+            ast.fix_missing_locations(x)
+            return self.evr(x)
+        if fv.kind == "closure" and self.depth < 6:
+            r = self.inline_call(node, fv.fn.name, fv.fn, scope=fv.scope)
+            if r is not NotImplemented:
+                return r
+        return Unknown(f"call of a {fv.kind} value that the evaluator cannot apply")
+
+    def make_callable(self, d, node):
+        """functools.partial / operator.attrgetter / operator.itemgetter objects"""
+        args, kws = node.args, node.keywords
+        if d in ("partial", "functools.partial") and args:
+            f = args[0]
+            fv = self.callee_value(f)
+            if fv is not None:
+                f = lit(fv)
+            elif isinstance(f, ast.Name) and f.id in self.env:
+                n = unsym(self.env[f.id])
+                if n is None:
+                    return NotImplemented
+                f = _dotted_node(n, node) or f
+            elif not isinstance(f, (ast.Name, ast.Attribute)) or dotted(f) is None:
+                return NotImplemented
+            return FuncV("partial", func=f, args=[self.evr(a) for a in args[1:]], kw={k.arg: self.evr(k.value) for k in kws if k.arg is not None})
+        if d in ("attrgetter", "operator.attrgetter", "itemgetter", "operator.itemgetter") and args and not kws:
+            vals = [self.evr(a) for a in args]
+            if d.endswith("attrgetter"):
+                items = [as_str(v) for v in vals]
+                if any(i is None or not all(p.isidentifier() for p in i.split(".")) for i in items):
+                    return NotImplemented
+            else:
+                items = vals
+                if any(is_unknown(v) for v in vals):
+                    return NotImplemented
+            return FuncV(d.split(".")[-1], items=items)
+        return NotImplemented
 
     def _ev(self, node):
         if isinstance(node, self.REFNODES) or (isinstance(node, ast.BinOp) and isinstance(node.op, ast.Add)):
@@ -529,7 +719,13 @@ class Ev01(AutoEvaluator):
 
         def rec(k):
             if k == len(node.generators):
-                out.append(self.evr(node.elt))
+                if isinstance(node, ast.DictComp):
+                    kk = self.key_of(self.evr(node.key))
+                    if kk is None:
+                        return False
+                    out.append((kk, self.ref_of(node.value)))
+                else:
+                    out.append(self.evr(node.elt))
                 return True
             g = node.generators[k]
             items = self.iter_items(g.iter)
@@ -548,6 +744,8 @@ class Ev01(AutoEvaluator):
             return True
         if not rec(0):
             return Unknown(f"comprehension over an iterable the evaluator cannot enumerate: {ast.unparse(node)[:80]}")
+        if isinstance(node, ast.DictComp):
+            return DictV(dict(out))
         return tuple(out)
 
     # ---- subscripts
@@ -580,6 +778,11 @@ class Ev01(AutoEvaluator):
             r = self.subscript(node, self)
             if r is not NotImplemented:
                 return r
+        if isinstance(node.value, ast.Attribute) and dotted(node.value) in ("np.s_", "np.index_exp", "numpy.s_", "numpy.index_exp") and "np" not in self.env:
+            try:
+                return self._index_value(node.slice)          # np.s_[a:b] is the slice object itself
+            except Unsupported as e:
+                return Unknown(str(e))
         base = self._evr(node.value)
         sl = node.slice
         if is_unknown(base):
@@ -609,7 +812,7 @@ class Ev01(AutoEvaluator):
         elts = sl.elts if isinstance(sl, ast.Tuple) else [sl]
         seen_none = False
         for e in elts:
-            if isinstance(e, ast.Constant) and e.value is None:
+            if (isinstance(e, ast.Constant) and e.value is None) or (isinstance(e, ast.Attribute) and dotted(e) in ("np.newaxis", "numpy.newaxis")):
                 seen_none = True
             elif is_full_slice(e) or (isinstance(e, ast.Constant) and e.value is Ellipsis):
                 pass
@@ -756,8 +959,42 @@ class Ev01(AutoEvaluator):
             self.returns.append((v, st))
             self.done = True
             return
+        if isinstance(st, ast.FunctionDef):
+            self.env[st.name] = FuncV("closure", fn=st, scope=self.env, owner=self)      # a local helper: called through its name
+            return
+        if isinstance(st, ast.With):
+            for it in st.items:
+                v = self.evr(it.context_expr)
+                if it.optional_vars is not None:
+                    self._assign(it.optional_vars, v, st)
+            self.run(st.body)
+            return
+        if isinstance(st, ast.Try):
+            # the path without an exception: body, else, finally
+            self.run(st.body)
+            self.run(st.orelse)
+            self.run(st.finalbody)
+            return
+        if isinstance(st, ast.If):
+            c = self.decide(st.test)
+            if any(isinstance(x, ast.NamedExpr) for x in ast.walk(st.test)):
+                self.ev(st.test)          # bind the walrus targets of the test
+            if c is True:
+                self.run(st.body)
+            elif c is False:
+                self.run(st.orelse)
+            else:
+                from .e2_eval import _assigned_names
+                why = f"assigned under undecided test {ast.unparse(st.test)[:80]}"
+                for nm in _assigned_names(st):
+                    if nm not in self.pinned:
+                        self.env[nm] = Unknown(why)
+                self.skip(st.body + st.orelse, why)
+            return
         if isinstance(st, ast.For):
             items = self.iter_items(st.iter)
+            if items is None and not (self.loop_once or self.loop_unroll):
+                self.skip(st.body + st.orelse, f"stored inside a loop over `{ast.unparse(st.iter)[:60]}` that could not be enumerated")
             if items is not None and len(items) <= self.LIMIT:
                 for it in items:
                     self.bind(st.target, it)
@@ -778,6 +1015,8 @@ class Ev01(AutoEvaluator):
                 return
         if isinstance(st, ast.While):
             c = self.decide(st.test)
+            if c is None and not self.loop_unroll:
+                self.skip(st.body + st.orelse, f"stored inside a loop `while {ast.unparse(st.test)[:60]}` that could not be unrolled")
             if c is None:
                 try:
                     return super().stmt(st)
@@ -803,8 +1042,74 @@ class Ev01(AutoEvaluator):
                 for nm in _assigned_names(st):
                     if nm not in self.pinned:
                         self.env[nm] = Unknown("assigned inside a while loop that could not be unrolled")
+                self.skip(st.body, "stored inside a while loop that could not be unrolled")
             return
         return super().stmt(st)
+
+    # ---- regions that are not executed: what they store into is not known afterwards (never "unchanged")
+    def skip(self, stmts, why):
+        work = list(stmts)
+        while work:
+            n = work.pop()
+            if isinstance(n, (ast.FunctionDef, ast.AsyncFunctionDef, ast.Lambda, ast.ClassDef)):
+                continue
+            tg = []
+            if isinstance(n, ast.Assign):
+                tg = list(n.targets)
+            elif isinstance(n, (ast.AugAssign, ast.AnnAssign)):
+                tg = [n.target]
+            elif isinstance(n, ast.Call):
+                d = dotted(n.func)
+                if d in self.inl or self.callee_value(n.func) is not None:
+                    for a in list(n.args) + [k.value for k in n.keywords]:
+                        if isinstance(a, (ast.Name, ast.Attribute)):
+                            v = self.env.get(dotted(a) or "")
+                            if isinstance(v, (Hist, Block, Box)):
+                                self.poison(v, None, why, n)
+            while tg:
+                t = tg.pop()
+                if isinstance(t, (ast.Tuple, ast.List)):
+                    tg.extend(t.elts)
+                elif isinstance(t, ast.Starred):
+                    tg.append(t.value)
+                elif isinstance(t, ast.Subscript) and isinstance(t.value, (ast.Name, ast.Attribute)) and dotted(t.value) is not None:
+                    nm = dotted(t.value)
+                    self.skipped.append((n, why))
+                    v = self.env.get(nm)
+                    if isinstance(v, (Hist, Block, Box, DictV)):
+                        self.poison(v, t, why, n)
+                    else:
+                        self.poison_name(nm, t, why, n)
+            work.extend(ast.iter_child_nodes(n))
+
+    def poison_args(self, node, why):
+        """arrays handed to a helper the evaluator could not follow: the helper may have written into them"""
+        for a in list(node.args) + [k.value for k in node.keywords]:
+            if isinstance(a, ast.Starred):
+                a = a.value
+            if isinstance(a, (ast.Name, ast.Attribute)) and not isinstance(a, _Lit):
+                v = self.env.get(dotted(a) or "")
+            elif isinstance(a, _Lit):
+                v = a.v
+            else:
+                continue
+            for x in (v if isinstance(v, tuple) else (v,)):
+                if isinstance(x, (Hist, Block, Box)):
+                    self.poison(x, None, why, node)
+
+    def poison(self, v, target, why, st):
+        if isinstance(v, (Hist, Block)):
+            H = v if isinstance(v, Hist) else v.hist
+            H.poisoned = why
+            H.bad.append(("skipped store", why))
+        elif isinstance(v, Box):
+            v.v = Unknown(why)
+
+    def poison_name(self, nm, target, why, st):
+        if nm in self.buffers:
+            self.seq += 1
+            self.cell_seq.append(self.seq)
+            self.cells.append((nm, Unknown(why), Unknown(why), st))
 
     def _assign(self, target, v, st, aug=False):
         if isinstance(target, ast.Name):
@@ -827,6 +1132,12 @@ class Ev01(AutoEvaluator):
             return self.scalar_store(target, base, v, st, aug)
         if isinstance(target, ast.Starred):
             return
+        if isinstance(target, ast.Attribute) and not aug:
+            d_ = dotted(target.value)
+            b = self.env.get(d_) if d_ is not None else None
+            if isinstance(b, DictV):
+                b.d[target.attr] = v
+                return
         if isinstance(target, (ast.Tuple, ast.List)) and isinstance(v, tuple) and len(v) == len(target.elts):
             for t, x in zip(target.elts, v):
                 self._assign(t, x, st)
@@ -870,19 +1181,31 @@ class Ev01(AutoEvaluator):
         return new
 
     def _call(self, node):
+        orig = node
         node = self.normalise_call(node)
         if is_unknown(node):
+            self.poison_args(orig, f"passed to a call whose arguments could not be expanded: {node.why}"[:160])
             return node
-        # a call through a variable that holds one of the helper functions
-        if isinstance(node.func, ast.Name) and node.func.id in self.env:
+        # a callable value: local closure / lambda, functools.partial, attrgetter(...)(x), operator.add
+        fv = self.callee_value(node.func)
+        if fv is not None:
+            return self.apply(fv, node)
+        # a call through a variable (or a conditional expression) that holds a function: a helper, a bound method, a library function
+        n = None
+        if isinstance(node.func, ast.Name) and node.func.id in self.env and node.func.id not in self.buffers:
             n = unsym(self.env[node.func.id])
-            if n is not None and n in self.inl:
-                new = ast.Call(func=ast.copy_location(ast.Name(id=n, ctx=ast.Load()), node), args=node.args, keywords=node.keywords)
-                ast.copy_location(new, node)
-                for a in ("_vmod", "_vparent", "_vqual"):
-                    if hasattr(node, a):
-                        setattr(new, a, getattr(node, a))
-                node = new
+            if n == node.func.id:
+                n = None
+        elif isinstance(node.func, (ast.IfExp, ast.NamedExpr)):
+            n = unsym(self.evr(node.func))
+        f = _dotted_node(n, node) if n is not None else None
+        if f is not None:
+            new = ast.Call(func=f, args=node.args, keywords=node.keywords)
+            ast.copy_location(new, node)
+            for a in ("_vmod", "_vparent", "_vqual"):
+                if hasattr(node, a):
+                    setattr(new, a, getattr(node, a))
+            node = new
         super()._record_call(node)
         self._recorded = node
         if self.call_hook is not None:
@@ -893,10 +1216,12 @@ class Ev01(AutoEvaluator):
         r = self.builtin_call(d, node)
         if r is not NotImplemented:
             return r
-        if d in self.inl and self.depth < 4:
-            r = self.inline_call(node, d, self.inl[d])
+        if d in self.inl:
+            r = self.inline_call(node, d, self.inl[d]) if self.depth < 4 else NotImplemented
             if r is not NotImplemented:
                 return r
+            self.poison_args(node, f"passed to the helper {d} which could not be followed")
+        self.unfollowed(d, node)
         hook, inl = self.call_hook, self.inline
         self.call_hook, self.inline = None, None
         try:
@@ -904,8 +1229,55 @@ class Ev01(AutoEvaluator):
         finally:
             self.call_hook, self.inline = hook, inl
 
+    def unfollowed(self, d, node):
+        """hook: a call that is neither modelled nor followed is about to be kept as an opaque application (ModeEv: see there)"""
+
     def builtin_call(self, d, node):
         args, kws = node.args, node.keywords
+        if d in ("partial", "functools.partial", "attrgetter", "operator.attrgetter", "itemgetter", "operator.itemgetter"):
+            r = self.make_callable(d, node)
+            if r is not NotImplemented:
+                return r
+        if d in UFUNC2 and len(args) == 2 and not kws:
+            x = ast.copy_location(ast.BinOp(left=args[0], op=UFUNC2[d](), right=args[1]), node)
+            return self.evr(ast.fix_missing_locations(x))
+        if isinstance(node.func, ast.Attribute) and node.func.attr == "dot" and len(args) == 1 and not kws and d not in ("np.dot", "numpy.dot"):
+            x = ast.copy_location(ast.BinOp(left=node.func.value, op=ast.MatMult(), right=args[0]), node)
+            return self.evr(ast.fix_missing_locations(x))
+        if d in ("np.negative",) and len(args) == 1 and not kws:
+            return self.evr(ast.fix_missing_locations(ast.copy_location(ast.UnaryOp(op=ast.USub(), operand=args[0]), node)))
+        if d in ("np.square",) and len(args) == 1 and not kws:
+            return self.evr(ast.fix_missing_locations(ast.copy_location(ast.BinOp(left=args[0], op=ast.Mult(), right=args[0]), node)))
+        if d in ("np.reciprocal",) and len(args) == 1 and not kws:
+            return self.evr(ast.fix_missing_locations(ast.copy_location(ast.BinOp(left=ast.Constant(value=1), op=ast.Div(), right=args[0]), node)))
+        if d in ("np.real", "np.imag", "numpy.real", "numpy.imag") and len(args) == 1 and not kws:
+            return self.evr(ast.fix_missing_locations(ast.copy_location(ast.Attribute(value=args[0], attr=d.split(".")[1], ctx=ast.Load()), node)))
+        if d in IDENT_FUNCS and len(args) == 1:
+            return self.evr(args[0])
+        if d in ("reduce", "functools.reduce") and 2 <= len(args) <= 3 and not kws:
+            fv = self.callee_value(args[0])
+            items = self.iter_items(args[1])
+            if fv is not None and items is not None and len(items) <= self.LIMIT:
+                items = ([self.evr(args[2])] if len(args) == 3 else []) + list(items)
+                if items:
+                    acc = items[0]
+                    for x in items[1:]:
+                        c = ast.copy_location(ast.Call(func=lit(fv), args=[lit(acc), lit(x)], keywords=[]), node)
+                        acc = self.apply(fv, ast.fix_missing_locations(c))
+                    return acc
+            return NotImplemented
+        if d == "map" and len(args) == 2 and not kws:
+            fv = self.callee_value(args[0])
+            items = self.iter_items(args[1])
+            if items is not None and len(items) <= self.LIMIT and (fv is not None or dotted(args[0]) is not None):
+                out = []
+                for x in items:
+                    c = ast.copy_location(ast.Call(func=lit(fv) if fv is not None else args[0], args=[lit(x)], keywords=[]), node)
+                    out.append(self.evr(ast.fix_missing_locations(c)))
+                return tuple(out)
+            return NotImplemented
+        if d in ("SimpleNamespace", "types.SimpleNamespace") and not args:
+            return DictV({k.arg: self.ref_of(k.value) for k in kws if k.arg is not None})       # a namespace object: fields by reference
         if d == "getattr" and len(args) in (2, 3) and not kws:
             s = as_str(self.evr(args[1]))
             if s is not None and s.isidentifier():
@@ -939,7 +1311,7 @@ class Ev01(AutoEvaluator):
             elif args:
                 return NotImplemented
             for k in kws:
-                out[k.arg] = self.evr(k.value)
+                out[k.arg] = self.ref_of(k.value)
             return DictV(out)
         if d in ("zip", "enumerate", "reversed", "tuple", "list") and args:
             items = self.iter_items(node if d in ("zip", "enumerate", "reversed") else args[0])
@@ -988,10 +1360,12 @@ class Ev01(AutoEvaluator):
                 return H
         return NotImplemented
 
-    def inline_call(self, node, name, fn):
+    def inline_call(self, node, name, fn, scope=None):
+        """evaluate the body of `fn` on the argument values (reference semantics for arrays).  `scope`: the environment a closure was created in - its
+        free names are read from there (late binding, as in Python)"""
         a = fn.args
         params = [x.arg for x in a.posonlyargs + a.args]
-        method = name.startswith("self.")
+        method = name.startswith("self.") and scope is None
         deco = {dotted(x) for x in fn.decorator_list}
         if method and "staticmethod" not in deco and params:
             params = params[1:]
@@ -999,12 +1373,12 @@ class Ev01(AutoEvaluator):
             return NotImplemented
         env = {}
         for p_, x in zip(params, node.args):
-            env[p_] = self.evr(x)
+            env[p_] = self.ref_of(x)
         kwonly = [x.arg for x in a.kwonlyargs]
         for k in node.keywords:
             if k.arg not in params and k.arg not in kwonly or k.arg in env:
                 return NotImplemented
-            env[k.arg] = self.evr(k.value)
+            env[k.arg] = self.ref_of(k.value)
         dflt = dict(zip(params[::-1], (a.defaults or [])[::-1]))
         for p_ in params:
             if p_ not in env:
@@ -1016,12 +1390,17 @@ class Ev01(AutoEvaluator):
             if p_ not in env and dd is not None:
                 env[p_] = self.ev(dd)
         shared = {}
+        if scope is not None:
+            local = set(params) | set(kwonly)
+            env = {**{k: v for k, v in scope.items() if k not in local}, **env}
         if method:
             for k, v in self.env.items():
                 if k.startswith("self."):
                     env[k] = v
                     shared[k] = v
         sub = self.spawn(fn, env)
+        if scope is not None:
+            sub.fn = self.fn         # module-level names are those of the enclosing function's module
         try:
             sub.run(fn.body)
         except (_Continue, _Break):
@@ -1061,13 +1440,37 @@ class ModeEv(Ev01):
         self.buffers = set()
         self.sel_stores = []     # (array box, selector value, stored value, stmt)
         self.abs_hook = None
+        self.lost = []           # (stmt, why): stores / in-place calls whose destination array could not be identified
 
     def spawn(self, fn, env):
         sub = super().spawn(fn, env)
         sub.buffers = set()
         sub.sel_stores = self.sel_stores
         sub.abs_hook = self.abs_hook
+        sub.lost = self.lost
         return sub
+
+    def ref_of(self, node):
+        if isinstance(node, ast.Name) and not isinstance(node, _Lit) and isinstance(self.env.get(node.id), F.Rat) and node.id not in self.pinned:
+            v = self.env[node.id]
+            n = unsym(v)
+            if n in ("None", "True", "False") or as_str(v) is not None or (n is not None and n in self.inl):
+                return v                              # not an array
+            return self._evr_name_box(node)          # a bare array name in a reference position: the array itself
+        return self.evr(node)
+
+    def unfollowed(self, d, node):
+        """a call of a function of the analysed module / class that is not followed: it may fill its array arguments in place"""
+        if d is None or not (d.startswith("self.") or ("." not in d and d not in PURE_BUILTINS)):
+            return
+        why = f"passed to {d}(...), which the evaluator does not follow"
+        for a in list(node.args) + [k.value for k in node.keywords]:
+            v = a.v if isinstance(a, _Lit) else (self.env.get(a.id) if isinstance(a, ast.Name) else (self.evr(a) if isinstance(a, (ast.Tuple, ast.List)) else None))
+            for x in (v if isinstance(v, tuple) else (v,)):
+                if isinstance(x, Box):
+                    x.v = Unknown(why)
+                elif isinstance(a, ast.Name) and isinstance(x, F.Rat) and a.id not in self.pinned and not x.is_const() and unsym(x) is None:
+                    self.env[a.id] = Unknown(why)
 
     def _evr(self, node):
         if isinstance(node, (ast.Tuple, ast.List)) and not any(isinstance(e, ast.Starred) for e in node.elts):
@@ -1083,16 +1486,8 @@ class ModeEv(Ev01):
             if c is not None and c in (0, 1):
                 return F.const(1 - int(c))
             return super()._evr(node)
-        if isinstance(node, ast.BinOp) and isinstance(node.op, (ast.BitAnd, ast.BitOr)):
-            a, b = self.ev(node.left), self.ev(node.right)
-            if is_unknown(a) or is_unknown(b) or isinstance(a, tuple) or isinstance(b, tuple):
-                ca, cb = (const_of(a) if isinstance(a, F.Rat) else None), (const_of(b) if isinstance(b, F.Rat) else None)
-                if isinstance(node.op, ast.BitAnd) and (ca == 0 or cb == 0):
-                    return F.const(0)
-                return a if is_unknown(a) else b
-            if isinstance(node.op, ast.BitAnd):
-                return need(a) * need(b)
-            return need(a) + need(b) - need(a) * need(b)
+        if isinstance(node, ast.BinOp) and isinstance(node.op, (ast.BitAnd, ast.BitOr, ast.BitXor)):
+            return self.mask_op({ast.BitAnd: "and", ast.BitOr: "or", ast.BitXor: "xor"}[type(node.op)], self.ev(node.left), self.ev(node.right))
         if isinstance(node, ast.Attribute) and node.attr == "size":
             v = self.ev(node.value)
             c = const_of(v) if isinstance(v, F.Rat) else None
@@ -1101,9 +1496,29 @@ class ModeEv(Ev01):
         return super()._evr(node)
 
     def _ev(self, node):
-        if isinstance(node, (ast.Compare, ast.UnaryOp)) or (isinstance(node, ast.BinOp) and isinstance(node.op, (ast.BitAnd, ast.BitOr))):
+        if isinstance(node, (ast.Compare, ast.UnaryOp)) or (isinstance(node, ast.BinOp) and isinstance(node.op, (ast.BitAnd, ast.BitOr, ast.BitXor))):
             return self.plain(self._evr(node))
         return super()._ev(node)
+
+    def mask_op(self, kind, a, b):
+        """`&`, `|`, `^` of two truth values (operator or np.bitwise_* / np.logical_* / operator.* function)"""
+        if is_unknown(a) or is_unknown(b) or isinstance(a, tuple) or isinstance(b, tuple):
+            ca, cb = (const_of(a) if isinstance(a, F.Rat) else None), (const_of(b) if isinstance(b, F.Rat) else None)
+            if kind == "and" and (ca == 0 or cb == 0):
+                return F.const(0)
+            if kind == "or" and (ca == 1 or cb == 1):
+                return F.const(1)
+            return a if is_unknown(a) else (b if is_unknown(b) else Unknown("mask operation on a tuple"))
+        a, b = need(a), need(b)
+        if kind == "and":
+            return a * b
+        if kind == "or":
+            return a + b - a * b
+        return a + b - 2 * a * b
+
+    MASK_FUNCS = {"np.bitwise_and": "and", "np.logical_and": "and", "operator.and_": "and", "operator.__and__": "and", "and_": "and",
+                  "np.bitwise_or": "or", "np.logical_or": "or", "operator.or_": "or", "operator.__or__": "or", "or_": "or",
+                  "np.bitwise_xor": "xor", "np.logical_xor": "xor", "operator.xor": "xor", "xor": "xor"}
 
     def selector(self, sl):
         """truth value of a selector expression: 1 / 0, else None"""
@@ -1138,11 +1553,31 @@ class ModeEv(Ev01):
         else:
             box = self.evr(tv)
             if not isinstance(box, Box):
+                if s is None or s:
+                    self.lost.append((st, f"store through `{ast.unparse(tv)[:60]}`, which is not bound to an array the evaluator follows"))
                 return
         v = self.plain(v)
         self.sel_stores.append((box, s, v, st))
         if s is None or s:
             box.v = v
+
+    def poison(self, v, target, why, st):
+        if isinstance(v, Box) and target is not None:
+            try:
+                if self.selector(target.slice) == 0:
+                    return             # the generic mode is not selected by this store
+            except Unsupported:
+                pass
+        return super().poison(v, target, why, st)
+
+    def poison_name(self, nm, target, why, st):
+        try:
+            if self.selector(target.slice) == 0:
+                return
+        except Unsupported:
+            pass
+        if nm not in self.pinned and "." not in nm:
+            self.env[nm] = Unknown(why)
 
     def _evr_name_box(self, node):
         v = self.env.get(node.id)
@@ -1155,16 +1590,21 @@ class ModeEv(Ev01):
         return b
 
     def _boxed_elts(self, node):
-        out = []
-        for e in node.elts:
-            if isinstance(e, ast.Name) and e.id in self.env and not isinstance(self.env[e.id], REFS) and isinstance(self.env[e.id], F.Rat):
-                out.append(self._evr_name_box(e))
-            else:
-                out.append(self.evr(e))
-        return tuple(out)
+        return tuple(self.ref_of(e) for e in node.elts)
+
+    def masked_store(self, arr, mask, val, node):
+        """np.place / np.putmask / np.put / np.copyto(where=): the subscript store arr[mask] = val"""
+        t = ast.copy_location(ast.Subscript(value=arr, slice=mask, ctx=ast.Store()), node)
+        ast.fix_missing_locations(t)
+        self._assign(t, self.evr(val), node)
+        return NONE
 
     def builtin_call(self, d, node):
         args = node.args
+        if d in ("np.place", "np.putmask", "np.put") and len(args) == 3 and not node.keywords:
+            return self.masked_store(args[0], args[1], args[2], node)
+        if d == "np.copyto" and len(args) == 2 and [k.arg for k in node.keywords] == ["where"]:
+            return self.masked_store(args[0], node.keywords[0].value, args[1], node)
         if d in ("np.any", "any") and len(args) == 1:
             return self.ev(args[0])
         if isinstance(node.func, ast.Attribute) and node.func.attr == "any" and not args:
@@ -1176,7 +1616,7 @@ class ModeEv(Ev01):
             if c is not None and c == 0:
                 return F.const(0)
             if c is not None:
-                return F.sym("<holds for the generic mode; depends on the other modes>")
+                return F.sym(OTHERS)
             return v
         if isinstance(node.func, ast.Attribute) and node.func.attr == "nonzero" and not args:
             return (self.ev(node.func.value),)
@@ -1184,7 +1624,9 @@ class ModeEv(Ev01):
             return (self.ev(args[0]),)
         if d == "np.flatnonzero" and len(args) == 1:
             return self.ev(args[0])
-        if d == "np.logical_not" and len(args) == 1:
+        if d in self.MASK_FUNCS and len(args) == 2 and not node.keywords:
+            return self.mask_op(self.MASK_FUNCS[d], self.ev(args[0]), self.ev(args[1]))
+        if d in ("np.logical_not", "np.bitwise_not", "np.invert", "operator.not_", "operator.inv", "operator.invert") and len(args) == 1:
             v = self.ev(args[0])
             c = const_of(v) if isinstance(v, F.Rat) else None
             if c is not None and c in (0, 1):
